@@ -225,7 +225,7 @@ def warm_builds():
     r = R()
     run_lattice(r, "C19")
     try:
-        run_cross_targets(r, "C19", ["core-only", "core-only-i686", "core-only-aarch64", "core-only-riscv32"])
+        run_cross_targets(r, "C19", ["core-only", "core-only-i686", "core-only-aarch64", "core-only-riscv32", "i686", "i686-sse42", "i686-avx2", "aarch64"])
     except Machinery:
         pass
 
@@ -344,20 +344,26 @@ def run_cross_targets(res, prop, which):
                               "builds against core alone for aarch64 (NEON scanners without std)"),
         "core-only-riscv32": (["cargo", "+nightly", "build", "--offline", "--lib", "-Zbuild-std=core", "--target", "riscv32imac-unknown-none-elf", "--no-default-features"],
                               "builds against core alone for a 32-bit target without SIMD"),
+        "i686-sse42": (["cargo", "+nightly", "check", "--offline", "--lib", "-Zbuild-std=std", "--target", "i686-unknown-linux-gnu"],
+                       "32-bit x86 with the sse4.2 target feature: the cfg lattice must provide each scanner exactly once", {"RUSTFLAGS": "-C target-feature=+sse4.2"}),
+        "i686-avx2": (["cargo", "+nightly", "check", "--offline", "--lib", "-Zbuild-std=std", "--target", "i686-unknown-linux-gnu"],
+                      "32-bit x86 with the avx2 target feature", {"RUSTFLAGS": "-C target-feature=+avx2"}),
         "aarch64": (["cargo", "+nightly", "check", "--offline", "--lib", "-Zbuild-std=std", "--target", "aarch64-unknown-linux-gnu"],
                     "NEON module type-checks against the real aarch64 intrinsics"),
         "i686": (["cargo", "+nightly", "check", "--offline", "--lib", "-Zbuild-std=std", "--target", "i686-unknown-linux-gnu"],
                  "32-bit target (word-at-a-time block = 4 bytes) type-checks"),
     }
     for name in which:
-        cmd, meaning = legs[name]
+        cmd, meaning = legs[name][:2]
         env = dict(ENV)
+        if len(legs[name]) > 2:
+            env.update(legs[name][2])
         env["CARGO_TARGET_DIR"] = os.path.join(TARGET, "cross", name)
         rc, so, se, dt = run(cmd, cwd=REPO, env=env, timeout=1800)
         if rc != 0:
             errs = [l for l in se.splitlines() if l.startswith("error")]
             if any("E0463" in l or "can't find crate" in l or "unresolved" in l or "E0433" in l or "E0432" in l or "E0425" in l or "E0308" in l for l in errs) or errs:
-                path = write_replay("%s-cross-%s.json" % (prop, name), {"property": prop, "kind": "build", "cross": name, "cmd": cmd,
+                path = write_replay("%s-cross-%s.json" % (prop, name), {"property": prop, "kind": "build", "cross": name, "cmd": cmd, "env": legs[name][2] if len(legs[name]) > 2 else {},
                                                                           "what": "cross-target leg failed: " + meaning, "errors": errs[:10]})
                 log(se[-2000:])
                 res.add_violation(path, "%s: %s" % (name, "; ".join(errs[:2])))
@@ -928,7 +934,7 @@ def run_for(prop, tier, res):
     extra = []
     if prop == "C18":
         run_histories(res, "reuse", "C18")
-        extra.append("histories: <= %d earlier calls drawn from 17 buffers x %d entry points per message kind, capacities 0..3; canonicalised by the snapshot of everything a later call can read, cross-checked by an un-canonicalised search one level shallower" % ((3, 3) if tier == "quick" else (4, 4)))
+        extra.append("histories: <= %d earlier calls drawn from the buffer tables (25 request, 24 response, 14 header-block buffers; every error kind occurs) x %d entry points per message kind, capacities 0..3; canonicalised by the snapshot of everything a later call can read, cross-checked by an un-canonicalised search one level shallower" % ((3, 3) if tier == "quick" else (4, 4)))
     elif prop == "C17":
         run_histories(res, "reuse", "C17")
     elif prop == "C16":
@@ -943,8 +949,8 @@ def run_for(prop, tier, res):
         run_loom(res)
         if not res.violations:
             run_race(res)
-        if tier != "quick":
-            run_cross_targets(res, "C13", ["aarch64", "i686", "core-only"])
+        # the cfg lattice keys on the architecture too: 32-bit x86 with each target-feature set, aarch64
+        run_cross_targets(res, "C13", ["i686", "i686-sse42", "i686-avx2", "aarch64"] + ([] if tier == "quick" else ["core-only"]))
         extra.append("loom explores the C11 model of the one atomic; avx2/sse42/swar are stubs that record which backend ran on the simulated CPU")
         extra.append("thread timing is decided by loom's exhaustive schedules, not by racing free-running processes (that would be sampling)")
     elif prop == "C01":
@@ -987,6 +993,7 @@ def replay(rep, path):
     if kind == "build":
         if "cross" in rep:
             env = dict(ENV)
+            env.update(rep.get("env") or {})
             env["CARGO_TARGET_DIR"] = os.path.join(TARGET, "cross", rep["cross"])
             rc, so, se, _ = run(rep["cmd"], cwd=REPO, env=env, timeout=1800)
         else:
